@@ -46,6 +46,10 @@ func (r *RingBuffer) Close() {
 		r.buffer[i] = nil
 	}
 
+	// the buffer is empty: data pushed from now on must be stored
+	// where Pull() will look for it, in order to preserve its order.
+	r.writeIndex = r.readIndex
+
 	r.mutex.Unlock()
 	r.cond.Broadcast()
 }
